@@ -68,6 +68,7 @@ Proof. vm_compute. split; reflexivity. Qed.
 (* runtime errors and warnings are located through the position table of the program: one entry per code byte, each the
    end offset of a token of the source, non-decreasing along the code when token positions are *)
 From BCL Require Import Model.Parser Proofs.ParserTotal Proofs.CompileVerifies Proofs.DiagProofs.
+From BCL Require Import Proofs.LexMono.
 
 (* every entry of the position table is the end offset of a token the lexer delivered *)
 Theorem C08_code_positions_are_token_positions : forall name cs x,
@@ -105,3 +106,14 @@ Theorem C08_diag_per_lexical_error : forall s, J s -> toks s <> [] ->
     st_tokens (advance s) = st_tokens s + N.of_nat (S (length errs)) /\ EF s (advance s).
 Proof. first [exact DiagProofs.advance_spec | apply DiagProofs.advance_spec]. Qed.
 Print Assumptions C08_diag_per_lexical_error.
+
+(* token end offsets are non-decreasing, error tokens included *)
+Theorem C08_token_positions_sorted : forall cs, tpos_mono (fst (lex cs)).
+Proof. first [exact LexMono.lex_tpos_mono | apply LexMono.lex_tpos_mono]. Qed.
+Print Assumptions C08_token_positions_sorted.
+
+(* hence the position table of every compiled program is sorted, unconditionally *)
+Theorem C08_code_positions_sorted_all : forall name cs,
+  StronglySorted N.le (g_pos (pr_prog (parse_chunks name cs))).
+Proof. first [exact LexMono.prog_positions_sorted_all | apply LexMono.prog_positions_sorted_all]. Qed.
+Print Assumptions C08_code_positions_sorted_all.
